@@ -62,6 +62,7 @@ class Server:
         self.case = case
         self.base = base or BASE
         self.est = case["est"]
+        self.bare = bool(case.get("bare"))   # JSON-RPC events written without an `event:` line
         self.modes = list(case.get("requests", []))
         self.stream: Optional[TimedByteStream] = None
         self.announced_at: Optional[float] = None
@@ -109,7 +110,7 @@ class Server:
             # server-initiated messages (after the announcement)
             sm = self.case.get("server_msgs") or []
             if sm:
-                raw = b"".join(sse_event("message", json.dumps(w, ensure_ascii=False)) for w in sm)
+                raw = b"".join(sse_event(None if self.bare else "message", json.dumps(w, ensure_ascii=False)) for w in sm)
                 cuts = self.case.get("cuts") or []
                 last = 0
                 t0 = self.case.get("server_msgs_at", 0.5)
@@ -164,11 +165,11 @@ class Server:
         if m == "202_then_event":
             async def later():
                 await asyncio.sleep(d)
-                self.stream.feed(sse_event("message", json.dumps(resp, ensure_ascii=False)))
+                self.stream.feed(sse_event(None if self.bare else "message", json.dumps(resp, ensure_ascii=False)))
             asyncio.create_task(later(), name="vf-sse-later")
             return httpx.Response(202)
         if m == "event_then_202":
-            self.stream.feed(sse_event("message", json.dumps(resp, ensure_ascii=False)))
+            self.stream.feed(sse_event(None if self.bare else "message", json.dumps(resp, ensure_ascii=False)))
             await asyncio.sleep(d)
             return httpx.Response(202)
         if m == "202_silence":
@@ -176,7 +177,7 @@ class Server:
         if m == "202_event_twice":
             async def later2():
                 await asyncio.sleep(d)
-                self.stream.feed(sse_event("message", json.dumps(resp)))
+                self.stream.feed(sse_event(None if self.bare else "message", json.dumps(resp)))
             asyncio.create_task(later2(), name="vf-sse-later")
             return httpx.Response(202)
         if m == "status_500":
@@ -191,6 +192,27 @@ class Server:
             raise httpx.ReadTimeout("timed out", request=request)
         if m == "200_garbage":
             return httpx.Response(200, content=b"<html>")
+        if m == "200_json_object_nonrpc":
+            return httpx.Response(200, json={"status": "ok"})
+        if m == "200_json_array_nonrpc":
+            return httpx.Response(200, json=[1, 2])
+        if m == "400_nullid_error":
+            return httpx.Response(400, json={"jsonrpc": "2.0", "id": None, "error": {"code": -32000, "message": "Bad Request: no session"}})
+        if m == "server_request_same_id_then_200_body":
+            # while the POST is in flight the server sends a request of its own that happens to use the same id
+            self.stream.feed(sse_event(None if self.bare else "message",
+                                       json.dumps({"jsonrpc": "2.0", "id": rid, "method": "sampling/createMessage", "params": {"who": "server"}})))
+            await asyncio.sleep(d)
+            return httpx.Response(200, json=resp)
+        if m == "server_request_same_id_then_202_event":
+            self.stream.feed(sse_event(None if self.bare else "message",
+                                       json.dumps({"jsonrpc": "2.0", "id": rid, "method": "sampling/createMessage", "params": {"who": "server"}})))
+
+            async def later3():
+                await asyncio.sleep(d)
+                self.stream.feed(sse_event("message", json.dumps(resp, ensure_ascii=False)))
+            asyncio.create_task(later3(), name="vf-sse-later")
+            return httpx.Response(202)
         raise KeyError(m)
 
     def stop(self):
@@ -201,7 +223,9 @@ class Server:
 
 REQUEST_MODES = ["200_body", "200_error_body", "202_then_event", "event_then_202", "202_then_event_error",
                  "event_then_202_error", "202_silence", "status_500",
-                 "status_404_json", "status_400_jsonrpc", "exception", "read_timeout", "200_garbage"]
+                 "status_404_json", "status_400_jsonrpc", "exception", "read_timeout", "200_garbage",
+                 "200_json_object_nonrpc", "200_json_array_nonrpc", "400_nullid_error",
+                 "server_request_same_id_then_200_body", "server_request_same_id_then_202_event"]
 IDS = [1, 0, "abc", "123", 2**53 + 1, "", -1]
 
 
@@ -223,6 +247,17 @@ def gen_cases(ctx):
                 if mode not in ("202_then_event", "event_then_202", "202_then_event_error", "event_then_202_error") and d != 0.1:
                     continue
                 yield {"est": {"kind": "path"}, "requests": [{"id": rid, "mode": mode, "delay": d}], "exit": "normal"}
+    # events without an `event:` line whose JSON text mentions things an endpoint announcement would
+    pathy = [{"jsonrpc": "2.0", "method": "notifications/resources/updated", "params": {"uri": "file:///srv/mcp/a.txt"}},
+             {"jsonrpc": "2.0", "method": "notifications/message", "params": {"level": "info", "data": "POST /messages/?session_id=zz failed"}},
+             {"jsonrpc": "2.0", "id": "srv-1", "method": "roots/list", "params": {"hint": "/mcp"}}]
+    for bare in (True, False):
+        yield {"est": {"kind": "path"}, "server_msgs": pathy, "cuts": [], "bare": bare, "server_msgs_at": 0.3,
+               "requests": [{"id": "after-pathy", "mode": "202_then_event", "delay": 0.6}], "exit": "normal"}
+        yield {"est": {"kind": "path_mcp"}, "server_msgs": pathy[:1], "cuts": [7], "bare": bare, "server_msgs_at": 0.2,
+               "requests": [{"id": 3, "mode": "200_body"}, {"id": 4, "mode": "event_then_202"}], "exit": "normal"}
+    for mode in ("202_then_event", "event_then_202", "202_then_event_error"):
+        yield {"est": {"kind": "untyped_path"}, "bare": True, "requests": [{"id": 8, "mode": mode, "delay": 0.1}], "exit": "normal"}
     for rk in ("list", "str", "zero", "empty_list"):
         for mode in ("200_body", "202_then_event", "event_then_202"):
             yield {"est": {"kind": "path"}, "requests": [{"id": 5, "mode": mode, "delay": 0.1, "result_kind": rk},
@@ -498,6 +533,11 @@ def exec_case(ctx, case: Dict[str, Any]) -> None:
                     mech = "duplicate_terminal_message"
                 ctx.violation(mech, f"request id {rid!r} mode {req['mode']}: {len(mine)} terminal messages on the read stream "
                               f"(all: {[g[:2] for g in msgs]})", case)
+            if req["mode"].startswith("server_request_same_id"):
+                sreq = [g for g in msgs if g[0] == "request" and g[1] == tagged(rid)]
+                if len(sreq) != 1:
+                    ctx.violation("server_request_with_pending_id_not_delivered_once", f"the server's own request with id {rid!r} "
+                                  f"(same id as the client request in flight) was delivered {len(sreq)} times", case)
             shape.append(len(mine))
         # server messages: once, in order
         if case.get("server_msgs"):
